@@ -30,8 +30,15 @@ def instances(tier):
           "reg_count_entries": nr + 2, "reg_entry_is_in_memory": na + 2, "ra_find_area_by_addr": na + 2,
           "ra_first_entry_of_next": nr + 2}
     D = {"NAREA": na, "NREG": nr, "AWORDS": aw}
-    out = [mk("c04_null", "C04/c04.c", [], dict(D, MODE_NULL=None), unwind=UW, default_unwind=3, encoded_units=ENC,
-              fp_removal=True, object_bits=12)]
-    out.append(mk("c04_init", "C04/c04.c", [], dict(D), unwind=UW, default_unwind=3, encoded_units=ENC,
-                  fp_removal=True, object_bits=12, timeout=3000))
+    out = [mk("c04_null", "C04/c04.c", [], dict(D, MODE_NULL=None, FIX_NA=na, FIX_NE=nr), unwind=UW, default_unwind=3,
+              encoded_units=ENC, fp_removal=True, object_bits=12)]
+    out.append(mk("c04_uninit", "C04/c04.c", [], dict(D, MODE_UNINIT=None, FIX_NA=na, FIX_NE=nr),
+                  unwind=dict(UW, vp_snap=max(aw, nr) + 2, vp_mem_equal=aw + 2), default_unwind=3, encoded_units=ENC,
+                  fp_removal=True, object_bits=12))
+    for fa in range(0, na + 1):
+        for fe in range(0, nr + 1):
+            if fa == 0 and fe not in (0, nr):
+                continue  # no areas: the register count is irrelevant (checked with 0 and the maximum)
+            out.append(mk("c04_init_a%d_e%d" % (fa, fe), "C04/c04.c", [], dict(D, FIX_NA=fa, FIX_NE=fe), unwind=UW,
+                          default_unwind=3, encoded_units=ENC, fp_removal=True, object_bits=12, timeout=3000))
     return out
